@@ -95,7 +95,8 @@ def gen(cls, idx, rng, tier):
                 for name in r:
                     left[name] += r[name]
                 r = {}
-            v = vid if rng.random() < .8 else "v%d" % vid
+            v = vid if rng.random() < .7 else rng.choice(
+                ["v%d" % vid, ("pop", vid), (vid,), ("a", "b", vid)])
             vid += 1
             vertices.append((v, r))
             placements.append((v, xy))
